@@ -580,3 +580,14 @@ func axBlindedInRange(sk *rsa.PrivateKey, msg, r, salt string) {}
 //@ lemma auto trusted
 //@ ensures PSSVerify(pk, digest, sig) ==> len(sig) == RSAModLen(pk)
 func axPSSVerifyLen(pk *rsa.PublicKey, digest, sig string) {}
+
+//@ ext (github.com/cloudflare/circl/oprf.Suite).Group func(s oprf.Suite) (g group.Group)
+//@ requires s != nil
+//@ ensures g == SuiteGroup(s) && g != nil
+//@ assigns none
+//@ pure
+//@ end
+
+//@ lemma auto trusted
+//@ ensures s != nil ==> SuiteGroup(s) != nil
+func axSuiteGroupNonNil(s oprf.Suite) {}
